@@ -101,6 +101,19 @@ def build_model(spec):
     from cassandra.cqlengine.models import Model
     _seq[0] += 1
     base = Model
+    if spec.get('mixins'):
+        # several abstract mixins; the classes (and their columns) are DEFINED in spec['mixin_def_order'], but LISTED as
+        # bases in the order of spec['mixins'] -- column instantiation order then differs from the order cqlengine processes them
+        made = {}
+        for k in spec['mixin_def_order']:
+            attrs = {'__abstract__': True, '__keyspace__': 'ks'}
+            for d in spec['mixins'][k]:
+                attrs[d['name']] = make_column(d)
+            made[k] = type('VMixin%d_%d' % (_seq[0], k), (Model,), attrs)
+        attrs = {'__keyspace__': 'ks', '__table_name__': 'tb%d' % _seq[0]}
+        for d in spec['own']:
+            attrs[d['name']] = make_column(d)
+        return type('VModel%d' % _seq[0], tuple(made[k] for k in range(len(spec['mixins']))), attrs)
     if spec.get('base'):
         attrs = {'__abstract__': True, '__keyspace__': 'ks'}
         for d in spec['base']:
@@ -112,10 +125,18 @@ def build_model(spec):
     return type('VModel%d' % _seq[0], (base,), attrs)
 
 
+def all_defs(spec):
+    """column definitions in the order ModelMetaClass processes them: inherited (bases in LISTED order), then own"""
+    inh = list(spec.get('base') or [])
+    for m in spec.get('mixins') or []:
+        inh += m
+    return inh + spec['own']
+
+
 def final_columns(spec):
     """name -> coldef that is in effect (own overrides base), in first-declaration order; and the partition key names in table order"""
     order, eff, pk = [], {}, []
-    for d in (spec.get('base') or []) + spec['own']:
+    for d in all_defs(spec):
         if d['name'] not in eff:
             order.append(d['name'])
         eff[d['name']] = d
